@@ -108,6 +108,8 @@ def call(L, op):
                     r = float(L.interpolate_value(a[0], a[1], a[2]))
                 elif kind == "reset":
                     r = L.reset()
+                elif kind == "rescale":
+                    r = L.rescale(a[0])
                 else:
                     raise RuntimeError("unknown op " + kind)
         except Exception as e:
@@ -291,6 +293,11 @@ def oracle_addr(case):
                 return f"{where}: reset() raised {r}"
             for ijk in shadow:
                 shadow[ijk] = 0.0
+        elif kind == "rescale":
+            if st != "ok":
+                return f"{where}: rescale({a[0]}) raised {r}"
+            for ijk in shadow:
+                shadow[ijk] = float(np.float64(shadow[ijk]) * np.float64(a[0]))
         elif kind == "closest":
             if all(finite(a[d]) and not float_tie(A[d], a[d]) for d in range(3)):
                 want = [nearest(A[d], a[d]) for d in range(3)]
@@ -438,6 +445,7 @@ def gen_addr(rng, small=False):
     special = [float("nan"), float("inf"), float("-inf")]
     ops = []
     val = [1000]
+    nresc = [0]
 
     def nv():
         val[0] += 1
@@ -469,6 +477,15 @@ def gen_addr(rng, small=False):
                 xyz[rng.randrange(3)] = rng.choice(special)
             op = [kind] + xyz + ([nv()] if kind.startswith("set") else [])
         ops.append(op)
+        if rng.random() < 0.04 and nresc[0] < 6:
+            # rescale in the middle of a history (exact factors), with the same nodes looked at through every accessor before and after
+            nresc[0] += 1
+            looks = [[rng.choice(axes[d]) for d in range(3)] for _ in range(3)]
+            for xyz in looks:
+                ops += [["interp"] + xyz, ["get_nn"] + xyz]
+            ops.append(["rescale", rng.choice([2.0, 0.5, -1.0, -0.5, 4.0])])
+            for xyz in looks:
+                ops += [["interp"] + xyz, ["get"] + xyz, ["get_nn"] + xyz]
         if rng.random() < 0.03:
             # reset in the middle of a history, then look at some nodes through every accessor again
             ops.append(["reset"])
@@ -555,7 +572,8 @@ Inductive status := SOk | SWarn | SErr (e : errcls).
 Inductive payload := PNone | PVal (v : fv) | PIdx (i j k : nat) | PXyz (x y z : Q).
 Inductive query :=
 | QSetIdx (i j k : Z) (v : fv) | QGetIdx (i j k : Z) | QSet (x y z v : fv) | QGet (x y z : fv)
-| QSetNN (x y z v : fv) | QGetNN (x y z : fv) | QCoord (i j k : Z) | QClosest (x y z : fv) | QInterp (x y z : fv).
+| QSetNN (x y z v : fv) | QGetNN (x y z : fv) | QCoord (i j k : Z) | QClosest (x y z : fv) | QInterp (x y z : fv)
+| QRescale (f : fv).
 Definition status_eqb a b := match a, b with SOk, SOk | SWarn, SWarn => true | SErr e, SErr f => err_eqb e f | _, _ => false end.
 Definition payload_eqb a b :=
   match a, b with
@@ -582,6 +600,7 @@ Definition eval (L : lattice fv) (qq : query) : lattice fv * status * payload :=
   | QCoord i j k => match get_coordinates fv L i j k with Ok (x, y, z) => (L, SOk, PXyz x y z) | Err e => (L, SErr e, PNone) end
   | QClosest x y z => of_w L (find_closest_indices fv L x y z) (fun t => (L, PIdx (fst (fst t)) (snd (fst t)) (snd t)))
   | QInterp x y z => match interpolate_value fv interp_oracle L x y z with Ok v => (L, SOk, PVal v) | Err e => (L, SErr e, PNone) end
+  | QRescale f => (rescale fv fv_mul L f, SOk, PNone)
   end.
 Inductive qe := QE (qq : query) (s : status) (p : payload).
 Fixpoint run_q (L : lattice fv) (qs : list qe) : lattice fv * nat :=
@@ -679,6 +698,8 @@ def coq_query(op, fv=fv):
         return f"(QSetIdx {z(a[0])} {z(a[1])} {z(a[2])} {fv(a[3])})"
     if kind in ("get_idx", "coord"):
         return f"({'QGetIdx' if kind == 'get_idx' else 'QCoord'} {z(a[0])} {z(a[1])} {z(a[2])})"
+    if kind == "rescale":
+        return f"(QRescale {fv(a[0])})"
     name = {"set": "QSet", "get": "QGet", "set_nn": "QSetNN", "get_nn": "QGetNN", "closest": "QClosest", "interp": "QInterp"}[kind]
     return f"({name} " + " ".join(fv(v) for v in a) + ")"
 
